@@ -319,4 +319,51 @@ def c15(run, ck):
                 assumptions=["regex syntax outside the subset and transcendental double results (pow/log of doubles) are not decided", "case mapping only on the listed alphabet"])
 
 
-PIPELINES = {"C15": c15, "C14": c14, "C17": c17, "C19": c19, "C11": c11, "C01": c01, "C13": c13, "C02": c02, "C18": c18, "C12": c12, "C10": c10, "C09": c09, "C03": c03, "C04": c04, "C05": c05, "C06": c06, "C07": c07, "C08": c08}
+def add_zone_offsets(path):
+    """Zone offsets are an input of the specification: taken from the system time-zone database (python3 zoneinfo)
+    for instants in 1985..2026 (where it agrees with the database embedded in rscel; zone WET excluded)."""
+    import datetime, zoneinfo
+    lo, hi = 473385600, 1767225600
+    out = []
+    n = 0
+    for line in open(path).read().split("\n"):
+        if not line.strip():
+            continue
+        if '"zone"' in line:
+            rec = json.loads(line)
+            z = rec.get("extra", {}).get("zone")
+            t = rec["bind"]["t"]["ns"]
+            ns = 0
+            for i, limb in enumerate(t["m"]):
+                ns += limb << (15 * i)
+            ns *= t["s"]
+            secs = ns // 1_000_000_000
+            if z and z != "WET" and lo <= secs < hi:
+                try:
+                    off = datetime.datetime.fromtimestamp(secs, zoneinfo.ZoneInfo(z)).utcoffset()
+                    rec["extra"] = {"law": "tz", "off": int(off.total_seconds()), "zone": z}
+                    n += 1
+                except Exception:
+                    rec["extra"] = {}
+            else:
+                rec["extra"] = {}
+            line = json.dumps(rec, separators=(",", ":"))
+        out.append(line)
+    with open(path, "w") as f:
+        f.write("\n".join(out) + "\n")
+    return n
+
+
+def c16(run, ck):
+    out = os.path.join(run.work, "time.ndjson")
+    run.drive("time", 3000 if run.thorough else 150, out)
+    n = add_zone_offsets(out)
+    ck.log("[tz] %d zone cases given an offset from the system database" % n)
+    verdicts, recs = run.validate(out, "Trace_Eval", parts=8, label="time")
+    eval_violations(run, ck, verdicts, recs, "time")
+    return dict(rule="boundary instants (years -1..10000, leap days, year ends, each weekday, representable min/max) and random instants x ten accessors without zone, with 'UTC' and with 18 IANA zones (offsets from the system database, DST transitions +-1 s) and invalid zones; "
+                     "duration accessors on boundary and random durations; arithmetic laws and range errors; timestamp()/duration() constructors; every pair of 20 units against exact rational definitions (1e-6), inverse law (1e-9), temperatures at fixed points, incompatible/unknown units",
+                assumptions=["zone offsets are trusted input from python3 zoneinfo for 1985-2026 (WET excluded)", "unit definitions: international avoirdupois / US customary / SI values"])
+
+
+PIPELINES = {"C16": c16, "C15": c15, "C14": c14, "C17": c17, "C19": c19, "C11": c11, "C01": c01, "C13": c13, "C02": c02, "C18": c18, "C12": c12, "C10": c10, "C09": c09, "C03": c03, "C04": c04, "C05": c05, "C06": c06, "C07": c07, "C08": c08}
